@@ -97,6 +97,8 @@ type LScenario struct {
 	// Profile is informational except for the non-trivial rule: "" for part
 	// "lifetime", "entry" for part "entry" (see genLife).
 	Profile string `json:"profile,omitempty"`
+	// Shape: see Scenario.Shape.
+	Shape string `json:"impl_shape,omitempty"`
 }
 
 const maxLifeOps = 24
@@ -105,7 +107,7 @@ const maxLifeOps = 24
 func (sc *LScenario) script() *Scenario {
 	return &Scenario{Client: sc.Client, Proto: sc.Proto, Plain: sc.Plain, NilCallbacks: sc.NilCallbacks, Callbacks: sc.Callbacks,
 		BaseDelay: sc.BaseDelay, MaxDelay: sc.MaxDelay, Timeout: sc.Timeout, Decoy: sc.Decoy, DecoyFirst: sc.DecoyFirst,
-		Attempts: sc.Attempts, Stop: "close"}
+		Attempts: sc.Attempts, Stop: "close", Shape: sc.Shape}
 }
 
 func (sc *LScenario) validate() error {
@@ -259,6 +261,10 @@ func runLife(sc *LScenario, st *stats) *verr {
 	script := sc.script()
 	w := newWorld(script)
 	curWorld.Store(w)
+	st.label(shapeLabel(sc.Shape))
+	if implShapeUncomparable(sc.Shape) {
+		st.label("impl-shape-not-comparable")
+	}
 
 	var inner client.Client
 	if sc.Client == "cache" {
